@@ -532,3 +532,34 @@ func AddCgoFile(r *Rng, m *ModuleSpec) bool {
 // ExcludedTypeNames: types declared only in files that build constraints, the _test suffix or the
 // platform suffix keep out of the package (see drawPre). No generator may ever be called for them.
 var ExcludedTypeNames = map[string]bool{"FromTest": true, "FromExtTest": true, "OnlyWindows": true, "OnlyWithTag": true, "OnlyIgnored": true}
+
+// AddIllTyped gives one package of the main module a type declared on an undefined identifier (an existing
+// scalar declaration is turned into one, or a tagged one is added). Reports the package index, -1 if none.
+func AddIllTyped(r *Rng, m *ModuleSpec, genNames []string) int {
+	var cands []int
+	for pi, p := range m.Pkgs {
+		if !p.InSub && len(p.Files) > 0 {
+			cands = append(cands, pi)
+		}
+	}
+	if len(cands) == 0 {
+		return -1
+	}
+	pi := Pick(r, cands)
+	p := m.Pkgs[pi]
+	for _, f := range p.Files {
+		for _, d := range f.Decls {
+			if d.Kind == "scalar" && d.Name != p.Anchor {
+				d.Broken = true
+				return pi
+			}
+		}
+	}
+	d := &Decl{Kind: "scalar", Name: "Pending", Broken: true, Doc: []string{"Pending is declared on a type that is not generated yet."}}
+	if len(genNames) > 0 {
+		d.Tags = []Tag{{Marker: "+", Key: "gengo:" + Pick(r, genNames)}}
+	}
+	f := p.Files[len(p.Files)-1]
+	f.Decls = append(f.Decls, d)
+	return pi
+}
